@@ -1,9 +1,66 @@
-/- C11 placeholder (being filled in) -/
+/-
+  C11 — The wallet database gives atomic, isolated, ordered key/value transactions.
+  PROPERTY THEOREMS ONLY (helper lemmas live in MW/Lemmas/Kv*.lean).
+  Model: MW.Model.KV / MW.Model.KVSys (masswallet/db/ldb/leveldb.go as written);  Spec: MW.Spec.KV.
+-/
 import MW.Model.KVSys
 import MW.Spec.KV
+import MW.Lemmas.KvEnc
+import MW.Lemmas.KvPrefix
+import MW.Lemmas.KvBatch
 namespace MW.Props.C11
 open MW MW.KV MW.Model.KV
 
-theorem bytesPrefix_spec : bytesPrefixLimit [] = none := rfl
+/-! ## 1. key encoding -/
+
+/-- `innerKey_inj`: for bucket names accepted by isValidBucketName, the encodings
+    `<depth>_<names…>_<key>` of distinct (bucket path, key) pairs differ – whatever bytes the keys
+    contain (separators, digits that look like a depth prefix, 0xff …). -/
+theorem innerKey_inj {p q : Path} (hp : ∀ n ∈ p, ValidName n) (hq : ∀ n ∈ q, ValidName n) {k k' : Bytes}
+    (h : dataKey p k = dataKey q k') : p = q ∧ k = k' :=
+  dataKey_injective (noSep_of_valid hp) (noSep_of_valid hq) h
+
+/-- `prefix_isolated`: the range scanned by GetByPrefix / Clear / an iterator of bucket `q`
+    (all keys starting with `<path q>_<prefix>`) contains a data key of bucket `p` only if `p = q`,
+    and then exactly when the key starts with the prefix. -/
+theorem prefix_isolated {p q : Path} (hp : ∀ n ∈ p, ValidName n) (hq : ∀ n ∈ q, ValidName n) (pfx k : Bytes) :
+    dataKey q pfx <+: dataKey p k ↔ p = q ∧ pfx <+: k :=
+  dataKey_prefix_iff (noSep_of_valid hp) (noSep_of_valid hq) pfx k
+
+/-- `index_disjoint`: data keys never collide with bucket-name index keys, no data prefix scan
+    reaches an index key, no index scan reaches a data key, distinct buckets have distinct index
+    keys, and the index scan of BucketNames for bucket `q` matches exactly the index keys of the
+    direct children `q ++ [n]`. -/
+theorem index_disjoint :
+    (∀ (p : Path) (k s : Bytes), dataKey p k ≠ indexKey s) ∧
+    (∀ (p : Path) (pfx s : Bytes), ¬ (dataKey p pfx <+: indexKey s)) ∧
+    (∀ (s t : Bytes) (p : Path) (k : Bytes), ¬ (indexKey s ++ t <+: dataKey p k)) ∧
+    (∀ {p q : Path}, (∀ n ∈ p, ValidName n) → (∀ n ∈ q, ValidName n) → idxKey p = idxKey q → p = q) ∧
+    (∀ {q r : Path}, (∀ n ∈ q, ValidName n) → (∀ n ∈ r, ValidName n) →
+        (childScanPrefix q <+: idxKey r ↔ ∃ n, r = q ++ [n])) :=
+  ⟨dataKey_ne_indexKey, dataPrefix_not_prefix_indexKey, indexPrefix_not_prefix_dataKey,
+   fun hp hq h => idxKey_injective (noSep_of_valid hp) (noSep_of_valid hq) h,
+   fun hq hr => childScan_matches_iff (noSep_of_valid hq) (noSep_of_valid hr)⟩
+
+-- the hypotheses are satisfiable by adversarial names: digits, the index letter, 0xff
+example : ∀ n ∈ ([[49], [98, 0xff], [49, 48]] : Path), ValidName n := by
+  intro n hn; simp at hn; rcases hn with rfl | rfl | rfl <;> (unfold ValidName; decide)
+example : dataKey [[49], [50]] [49, 95, 50] = [50, 95, 49, 95, 50, 95, 49, 95, 50] := by
+  unfold dataKey pathBytes join itoa; rw [Dec.render]; decide
+
+/-! ## 2. range arithmetic -/
+
+/-- `bytesPrefix_spec`: `k ∈ [start, limit)` of `BytesPrefix(prefix)` ⇔ `prefix` is a prefix of
+    `k`, for every prefix – including the empty one and prefixes of 0xff bytes only, whose limit is
+    nil (unbounded). -/
+theorem bytesPrefix_spec (pfx k : Bytes) :
+    (ble pfx k = true ∧ (match bytesPrefixLimit pfx with | none => True | some l => blt k l = true)) ↔ pfx <+: k :=
+  inRange_bytesPrefix_iff pfx k
+
+theorem bytesPrefix_unbounded_iff (pfx : Bytes) : bytesPrefixLimit pfx = none ↔ ∀ c ∈ pfx, c = 0xff :=
+  bytesPrefixLimit_eq_none_iff pfx
+
+example : bytesPrefixLimit [0x61, 0xff, 0xff] = some [0x62] := by decide
+example : bytesPrefixLimit [0xff, 0xff] = none := by decide
 
 end MW.Props.C11
